@@ -30,9 +30,10 @@ VARIABLES base,          \* class of the base scenario (constant along a behavio
           tr,            \* translated (count)
           ytr,           \* translated in y: the configuration is no longer mirror-symmetric about y = 0
           perm,          \* surface list reversed
+          ord,           \* spanwise node order of every surface reversed (y runs the other way along the index)
           seq            \* the behaviour: sequence of action records
 
-vars == <<base, cls, fac, mir, tr, ytr, perm, seq>>
+vars == <<base, cls, fac, mir, tr, ytr, perm, ord, seq>>
 
 (* ---------------- rationals as <<num, den>>, kept small ----------------- *)
 RECURSIVE Gcd(_, _)
@@ -90,7 +91,11 @@ Classes == [span : {"full", "half"}, side : {"L", "R", "F"}, ground : BOOLEAN, r
 ClassOK(c) == /\ (c.span = "half") <=> (c.side # "F")
               /\ c.ground => c.span = "half"
               /\ c.compressible => ~c.ground              \* not offered by the code: set-up fails loudly (OASSetup)
-              /\ c.span = "half" => c.symflow           \* a half model stands for a symmetric flow: beta = 0, p = r = 0
+              /\ c.ground => c.symflow                  \* ground-effect models: symmetric flow (the image system is built for beta = 0)
+              /\ (c.span = "half" /\ c.compressible) => c.symflow   \* the wind-frame rotation takes the root off the symmetry plane
+              \* a half model with sideslip / roll / yaw rates (~symflow) is not a physical symmetric flow, but the code
+              \* accepts it and C06 quantifies over all flow conditions: the scaling, x-z-translation, mirror and
+              \* permutation laws and the defining identities are stated for it too (Unhalve is not)
 BaseClasses == {c \in Classes : ClassOK(c)}
 
 (* ---------------- step laws ------------------------------------------------ *)
@@ -99,7 +104,12 @@ BaseClasses == {c \in Classes : ClassOK(c)}
 \*   "all" | "L" / "R" (the half that a Halve keeps) | "half" (Unhalve: the modelled half of the new
 \*   full model equals the old half model) | "real" (ImageGround: image surfaces are not observables)
 \*   "cmnorm" (Permute: CM is normalised by the first listed surface's mean aerodynamic chord)
-Law(f, sg, rv, rs) == [factor |-> f, sign |-> sg, reversed |-> rv, restrict |-> rs]
+\* `osign`: factor -1 for the observables that are odd in the orientation of the lattice (Reorder)
+LawO(f, sg, rv, rs, os) == [factor |-> f, sign |-> sg, reversed |-> rv, restrict |-> rs, osign |-> os]
+Law(f, sg, rv, rs) == LawO(f, sg, rv, rs, 1)
+\* reversing the node order turns every vortex ring over: the circulation and the panel normal change sign, and
+\* nothing physical (forces, coefficients, moments) does
+OrientOdd == {"circulations", "normals"}
 IdLaw == Law(One, <<1, 1, 1>>, FALSE, "all")
 Spanwise(o) == Obs[o].span \in {"panel", "node"}
 StepLaw(n, p) == [o \in ObsNames |->
@@ -111,57 +121,65 @@ StepLaw(n, p) == [o \in ObsNames |->
      [] n = "Unhalve"  -> Law(One, <<1, 1, 1>>, FALSE, IF Spanwise(o) THEN "half" ELSE "all")
      [] n = "ImageGround" -> Law(One, <<1, 1, 1>>, FALSE, "real")
      [] n = "Permute"  -> Law(One, <<1, 1, 1>>, FALSE, IF o = "CM" THEN "cmnorm" ELSE "all")
-     [] OTHER -> IdLaw]                                   \* Translate, Mach0, FarGround limit
+     [] n = "Reorder"  -> LawO(One, <<1, 1, 1>>, Spanwise(o), "all", IF o \in OrientOdd THEN -1 ELSE 1)
+     [] OTHER -> IdLaw]                                   \* Translate, Mach0, Reexpress, FarGround limit
 Act(n, p) == [name |-> n, par |-> p, law |-> StepLaw(n, p)]
 Log(a) == seq' = Append(seq, a)
 CanAct(n) == n \in Enabled /\ Len(seq) < Depth
 
 ScaleRho(f) == /\ CanAct("ScaleRho") /\ fac' = [fac EXCEPT !.rho = Mul(@, f)]
-               /\ Log(Act("ScaleRho", f)) /\ UNCHANGED <<cls, mir, tr, ytr, perm>>
+               /\ Log(Act("ScaleRho", f)) /\ UNCHANGED <<cls, mir, tr, ytr, perm, ord>>
 \* speed: rotation rates scale with speed/length so that the flow stays similar; Mach number is a separate input
 ScaleV(f)   == /\ CanAct("ScaleV") /\ fac' = [fac EXCEPT !.v = Mul(@, f)]
-               /\ Log(Act("ScaleV", f)) /\ UNCHANGED <<cls, mir, tr, ytr, perm>>
+               /\ Log(Act("ScaleV", f)) /\ UNCHANGED <<cls, mir, tr, ytr, perm, ord>>
 \* every length: meshes, moment reference point, ground height; Reynolds number per length and rotation rates inversely
 ScaleLen(f) == /\ CanAct("ScaleLen") /\ fac' = [fac EXCEPT !.len = Mul(@, f)]
-               /\ Log(Act("ScaleLen", f)) /\ UNCHANGED <<cls, mir, tr, ytr, perm>>
+               /\ Log(Act("ScaleLen", f)) /\ UNCHANGED <<cls, mir, tr, ytr, perm, ord>>
 \* translation of all surfaces and the reference point: x,z only when a symmetry plane is modelled;
 \* along the free stream only when a ground plane is modelled (the plane is tied to the origin)
-TransDirs == IF cls.ground THEN {"u"} ELSE IF cls.span = "half" THEN {"x", "z", "u"} ELSE {"x", "y", "z", "u"}
+TransDirs == IF cls.ground THEN {"u"} ELSE IF cls.span = "half" THEN (IF cls.symflow THEN {"x", "z", "u"} ELSE {"x", "z"}) ELSE {"x", "y", "z", "u"}
 Translate(d) == /\ CanAct("Translate") /\ d \in TransDirs /\ tr' = tr + 1 /\ ytr' = (ytr \/ d = "y")
-                /\ Log(Act("Translate", d)) /\ UNCHANGED <<cls, fac, mir, perm>>
+                /\ Log(Act("Translate", d)) /\ UNCHANGED <<cls, fac, mir, perm, ord>>
 \* reflection of the whole configuration about the x-z plane (node order reversed so y increases again)
 Mirror == /\ CanAct("Mirror")
           /\ cls' = [cls EXCEPT !.side = IF @ = "L" THEN "R" ELSE IF @ = "R" THEN "L" ELSE "F"]
           /\ mir' = ~mir
-          /\ Log(Act("Mirror", 0)) /\ UNCHANGED <<fac, tr, ytr, perm>>
+          /\ Log(Act("Mirror", 0)) /\ UNCHANGED <<fac, tr, ytr, perm, ord>>
 \* full-span mirror-symmetric model with symmetric flow -> half model with the symmetry option
-Halve(sd) == /\ CanAct("Halve") /\ cls.span = "full" /\ cls.symflow /\ ~cls.rot /\ ~ytr
+Halve(sd) == /\ CanAct("Halve") /\ cls.span = "full" /\ cls.symflow /\ ~cls.rot /\ ~ytr /\ ~ord
              /\ cls' = [cls EXCEPT !.span = "half", !.side = sd]
-             /\ Log(Act("Halve", sd)) /\ UNCHANGED <<fac, mir, tr, ytr, perm>>
-Unhalve == /\ CanAct("Unhalve") /\ cls.span = "half" /\ ~cls.ground
+             /\ Log(Act("Halve", sd)) /\ UNCHANGED <<fac, mir, tr, ytr, perm, ord>>
+Unhalve == /\ CanAct("Unhalve") /\ cls.span = "half" /\ ~cls.ground /\ cls.symflow /\ ~ord
            /\ cls' = [cls EXCEPT !.span = "full", !.side = "F"]
-           /\ Log(Act("Unhalve", 0)) /\ UNCHANGED <<fac, mir, tr, ytr, perm>>
+           /\ Log(Act("Unhalve", 0)) /\ UNCHANGED <<fac, mir, tr, ytr, perm, ord>>
 \* ground-effect model -> free-air model with explicit reflected image surfaces (observables of the real surfaces)
 \* (not with rotation rates: a single rotation vector cannot give the image its reflected onset flow)
 ImageGround == /\ CanAct("ImageGround") /\ cls.ground /\ ~cls.rot
                /\ cls' = [cls EXCEPT !.ground = FALSE]
-               /\ Log(Act("ImageGround", 0)) /\ UNCHANGED <<fac, mir, tr, ytr, perm>>
+               /\ Log(Act("ImageGround", 0)) /\ UNCHANGED <<fac, mir, tr, ytr, perm, ord>>
 \* reverse the order in which the surfaces are listed
 Permute == /\ CanAct("Permute") /\ cls.nsurf >= 2 /\ perm' = ~perm
-           /\ Log(Act("Permute", 0)) /\ UNCHANGED <<cls, fac, mir, tr, ytr>>
+           /\ Log(Act("Permute", 0)) /\ UNCHANGED <<cls, fac, mir, tr, ytr, ord>>
+\* reverse the spanwise node order of every surface: the four admissible layouts of a half mesh (-y or +y side,
+\* tip first or root first) and the two of a full-span mesh describe the same wing
+Reorder == /\ CanAct("Reorder") /\ ord' = ~ord
+           /\ Log(Act("Reorder", 0)) /\ UNCHANGED <<cls, fac, mir, tr, ytr, perm>>
+\* the same physical inputs handed over in another unit system (speed in knots, angles in radians, density in
+\* slug/ft^3, lengths in feet / inches, Reynolds number per foot, rates in deg/s): nothing changes
+Reexpress == /\ CanAct("Reexpress") /\ Log(Act("Reexpress", 0)) /\ UNCHANGED <<cls, fac, mir, tr, ytr, perm, ord>>
 \* incompressible model -> compressible model at Mach 0 (zero sideslip)
 Mach0 == /\ CanAct("Mach0") /\ ~cls.compressible /\ cls.symflow /\ ~cls.ground
          /\ cls' = [cls EXCEPT !.compressible = TRUE]
-         /\ Log(Act("Mach0", 0)) /\ UNCHANGED <<fac, mir, tr, ytr, perm>>
+         /\ Log(Act("Mach0", 0)) /\ UNCHANGED <<fac, mir, tr, ytr, perm, ord>>
 
 Next == \/ \E f \in Factors : ScaleRho(f) \/ ScaleV(f) \/ ScaleLen(f)
         \/ \E d \in {"x", "y", "z", "u"} : Translate(d)
-        \/ Mirror \/ Unhalve \/ ImageGround \/ Permute \/ Mach0
+        \/ Mirror \/ Unhalve \/ ImageGround \/ Permute \/ Mach0 \/ Reorder \/ Reexpress
         \/ \E sd \in {"L", "R"} : Halve(sd)
 
 Init == /\ cls \in BaseSel /\ cls \in BaseClasses /\ base = cls
         /\ fac = [rho |-> One, v |-> One, len |-> One]
-        /\ mir = FALSE /\ tr = 0 /\ ytr = FALSE /\ perm = FALSE /\ seq = <<>>
+        /\ mir = FALSE /\ tr = 0 /\ ytr = FALSE /\ perm = FALSE /\ ord = FALSE /\ seq = <<>>
 Spec == Init /\ [][Next /\ base' = base]_vars
 
 (* ---------------- invariants ---------------------------------------------- *)
@@ -192,15 +210,19 @@ RECURSIVE ProdF(_, _)
 ProdF(o, n) == IF n = 0 THEN One ELSE Mul(ProdF(o, n - 1), seq[n].law[o].factor)
 RECURSIVE ProdS(_, _, _)
 ProdS(o, i, n) == IF n = 0 THEN 1 ELSE ProdS(o, i, n - 1) * seq[n].law[o].sign[i]
+RECURSIVE ProdO(_, _)
+ProdO(o, n) == IF n = 0 THEN 1 ELSE ProdO(o, n - 1) * seq[n].law[o].osign
 NRev(o) == Cardinality({n \in 1..Len(seq) : seq[n].law[o].reversed})
 Composition == \A o \in ObsNames :
       /\ ProdF(o, Len(seq)) = Factor(o)
       /\ \A i \in 1..3 : ProdS(o, i, Len(seq)) = (IF mir THEN Sgn(Obs[o].rank)[i] ELSE 1)
-      /\ (NRev(o) % 2 = 1) <=> (mir /\ Spanwise(o))
+      /\ (NRev(o) % 2 = 1) <=> ((mir # ord) /\ Spanwise(o))
+      /\ ProdO(o, Len(seq)) = (IF ord /\ o \in OrientOdd THEN -1 ELSE 1)
 
 (* ---------------- emission ------------------------------------------------ *)
 Prediction == [o \in ObsNames |-> [factor |-> Factor(o), sign |-> IF mir THEN Sgn(Obs[o].rank) ELSE <<1, 1, 1>>,
-                                   reversed |-> mir /\ Spanwise(o)]]
+                                   reversed |-> (mir # ord) /\ Spanwise(o),
+                                   osign |-> IF ord /\ o \in OrientOdd THEN -1 ELSE 1]]
 EmitBehaviour == Len(seq) = Depth =>
      PrintT(<<"EMIT", ToJson([base |-> base, seq |-> seq, cls |-> cls, pred |-> Prediction, perm |-> perm])>>)
 EmitTypes == Len(seq) = 0 => PrintT(<<"TYPES", ToJson(Obs)>>)
